@@ -94,9 +94,12 @@ def c05(run):
           ("mc_smix", dict(names="Names3", sal="Sal2", methods=smix, maxnames=3))]
     gen = [("g_mix", dict(names="Names3", sal="Sal3", methods=mix, beh="Beh3")),
            ("g_nm", dict(names="Names3", sal="Sal2", methods=nm, nm="NMq", beh="Beh2")),
-           ("g_snm", dict(names=T(run, "Names2", "Names3"), sal="Sal2", methods=snm, nm="NMq",
-                          maxnames=T(run, 2, 3), beh="Beh2")),
            ("g_smix", dict(names="Names3", sal="Sal2", methods=smix, maxnames=3, beh="Beh2"))]
+    if run.tier == "quick":
+        gen.append(("g_snm", dict(names="Names2", sal="Sal2", methods=snm, nm="NMq", maxnames=2, beh="Beh2")))
+    else:
+        # one generator job per method keeps every job below ~7k records
+        gen += [("g_snm%d" % i, dict(names="Names3", sal="Sal1", methods=[m], nm="NMs", maxnames=3, beh="Beh2")) for i, m in enumerate(snm)]
     if run.tier == "thorough":
         gen.append(("g_nm4", dict(names="Names4", sal="Sal2", methods=nm, nm="NM4", beh="Beh2")))
     return _exec_check(run, mc, gen, "mix", T(run, 500, 8000), sample=T(run, 3000, 40000),
@@ -157,8 +160,10 @@ def c12(run):
           ("mc_snm", dict(names="Names3", sal="Sal2", methods=snm, nm="NMq", maxnames=3))]
     gen = [("g_sel%d" % i, dict(names="Names3", sal="Sal2", methods=[m], maxnames=T(run, 2, 3), beh="Beh2"))
            for i, m in enumerate(sel)]
-    gen += [("g_snm", dict(names=T(run, "Names2", "Names3"), sal="Sal2", methods=snm, nm="NMq",
-                           maxnames=T(run, 2, 3), beh="Beh2"))]
+    if run.tier == "quick":
+        gen += [("g_snm", dict(names="Names2", sal="Sal2", methods=snm, nm="NMq", maxnames=2, beh="Beh2"))]
+    else:
+        gen += [("g_snm%d" % i, dict(names="Names3", sal="Sal1", methods=[m], nm="NMs", maxnames=3, beh="Beh2")) for i, m in enumerate(snm)]
     return _exec_check(run, mc, gen, "selected", T(run, 500, 8000), sample=T(run, 4000, 60000),
                        rule="sessions enumerated by TLC: every selected variant x every name list without repetition of length <=2 "
                             "(thorough: <=3) over {r1,r2,r3,zz} (subsets, permutations, unknown names, empty list) x rule sets x outcomes, "
